@@ -5,7 +5,8 @@ Decided statically: lock discipline (in every method that mutates the mapping or
 ``_postinit`` aliases resolved), the shape of the three locked operations (lookup + touch,
 evict-before-insert with the capacity test, delete from both structures), orientation
 consistency (append right, evict left, iterate reversed), pickle/copy state coverage, and
-that the unlocked convenience methods go through the locked primitives.  Not decided:
+that the unlocked convenience methods go through the locked primitives.  Also: one lock per cache object - _postinit only from __init__ / __setstate__, no rebinding of the containers on a live cache.  
+Not decided:
 equivalence with a reference LRU over all histories, linearizability.
 """
 
